@@ -188,11 +188,15 @@ def c13_case(ctx: Ctx, case: dict):
             ctx.violate("C13/states-duplicated", f"states {sorted(st_sub & st_rest)} are in both parts", case={**case, "comp": cname})
             return
         # numeric glue: each part, fed the other's missing values, reproduces the full model
-        for part, pode, other in (("sub", sub, rest), ("rest", rest, sub)):
+        # (also with unused-variable removal: what one part does not use itself may be exactly what the other part asks for)
+        for part, pode, other, ru in (("sub", sub, rest, False), ("rest", rest, sub, False), ("sub", sub, rest, True), ("rest", rest, sub, True)):
             if not (pode.state_derivatives or pode.intermediates):
                 continue
+            if ru:
+                part = part + "+remove_unused"
             try:
-                code = common.py_code(pode, scheme=[Scheme.explicit_euler], missing_values=other.missing_variables or None)
+                code = common.py_code(pode, scheme=[Scheme.explicit_euler], missing_values=other.missing_variables or None,
+                                      **({"remove_unused": True} if ru else {}))
                 mod = common.exec_module(code)
             except Exception as ex:
                 ctx.violate(f"C13/part-codegen-raises/{type(ex).__name__}", f"code generation for {part} of {cname!r} raised {type(ex).__name__}: {str(ex)[:90]}",
